@@ -126,7 +126,7 @@ def run(tier: str, seed: int) -> int:
             # two names (contents 2 and 3, archive None / 0): a seeded sample of the 116k transitions
             ejobs.append(pool.submit(_edges_job, 'L2n2', CONFIGS['L2'], work, 20000, seed, tier, ('n1', 'n2')))
         # 3. TLC-simulated behaviours with three names and large contents; seeded random histories
-        sjobs = [pool.submit(_sim_job, n, c, work, 40 if quick else 400, seed, tier) for n, c in SIMS.items()]
+        sjobs = [pool.submit(_sim_job, n, c, work, 40 if quick else 1500, seed, tier) for n, c in SIMS.items()]
         rnd_out = work.path('random.ndjson')
         rjob = pool.submit(core.run_driver, 'c13_driver.py', ['random', rnd_out], timeout=1800,
                            env={'VERIF_SEED': seed, 'VERIF_TIER': tier})
@@ -141,6 +141,10 @@ def run(tier: str, seed: int) -> int:
             cov['transitions'] += r.generated
             edge_total += st['edges']
             walks[name] = st
+            goal = st['edges'] if (not quick and name != 'L2n2') else min(st['edges'], 20000 if name == 'L2n2' else sample)
+            if st['covered'] + st.get('unreachable', 0) != goal:
+                raise MachineryError(f'coverage handshake {name}: covered {st["covered"]} + unreachable '
+                                     f'{st.get("unreachable", 0)} != {goal} transitions to cover')
             for k, v in ops.items():
                 model_ops[k] = model_ops.get(k, 0) + v
             recs.append(out)
@@ -213,7 +217,7 @@ def run(tier: str, seed: int) -> int:
         known, new = core.classify(PROP, allsig)
         if not new:
             missing = WANT_OPS - {k.split(':')[0] for k in impl_ops}
-            if missing or 'parts' not in impl_ops:
+            if missing or impl_ops.get('parts', 0) < 654:      # 121 strings + 169 pairs + 364 triples
                 raise MachineryError(f'vacuous replay: calls never made: {sorted(missing)}')
         return core.finish(PROP, tier=tier, seed=seed, t0=t0, coverage=cov, known=known, new=new,
                            assumptions=['pure-Python srctools from /repo/src',
